@@ -1019,6 +1019,29 @@ func boundaryCases() []func(c *core.Ctx) {
 	} {
 		add(e, fdata)
 	}
+	// round 16: a value compared with itself. Only for a float that is not a number does the outcome differ from "equal", and
+	// such a float arises from arithmetic or from the data only; both sides read the same variable, element or property
+	nan := math.NaN()
+	ndata := map[string]model.Value{"nn": model.Float(nan), "inf": model.Float(math.Inf(1)), "zf": model.Float(0), "one": model.Float(1),
+		"arr": model.Arr(model.Float(1), model.Float(nan)), "o": model.Obj(map[string]model.Value{"v": model.Float(nan), "w": model.Float(2)})}
+	nn, inf, zf := model.Var{Name: "nn"}, model.Var{Name: "inf"}, model.Var{Name: "zf"}
+	a1 := model.Index{X: model.Var{Name: "arr"}, I: lit(model.Int(1))}
+	ov := model.Dot{X: model.Var{Name: "o"}, Name: "v"}
+	for _, op := range []string{"==", "!=", "<", "<=", ">", ">="} {
+		for _, pair := range [][2]model.Expr{{nn, nn}, {model.Paren{X: nn}, nn}, {nn, model.Paren{X: nn}}, {a1, a1}, {ov, ov}, {nn, a1}, {inf, inf}, {zf, zf},
+			{model.Var{Name: "one"}, model.Var{Name: "one"}}, {bin("/", zf, zf), bin("/", zf, zf)}, {bin("-", inf, inf), nn}, {model.Index{X: model.Var{Name: "arr"}, I: lit(model.Int(0))}, model.Index{X: model.Var{Name: "arr"}, I: lit(model.Int(0))}}} {
+			add(bin(op, pair[0], pair[1]), ndata)
+			add(model.Ternary{C: bin(op, pair[0], pair[1]), A: lit(model.Str("yes")), B: lit(model.Str("no"))}, ndata)
+		}
+		// the same through a name assigned in the template: the result of an arithmetic expression kept and read twice
+		for _, rhs := range []model.Expr{bin("/", zf, zf), bin("-", inf, inf), bin("*", inf, zf), nn, bin("+", nn, model.Var{Name: "one"}), model.Var{Name: "one"}, bin("/", model.Var{Name: "one"}, zf)} {
+			kept := model.Var{Name: "kept"}
+			out = append(out, func(c *core.Ctx) {
+				judgeProgram(c, []model.Stmt{model.Assign{Name: "kept", E: rhs}, model.Text{S: "<"}, model.Print{E: bin(op, kept, kept)}, model.Text{S: "|"},
+					model.Print{E: model.Ternary{C: bin(op, kept, model.Paren{X: kept}), A: lit(model.Int(1)), B: lit(model.Int(2))}}, model.Text{S: ">"}}, ndata, "boundary", false)
+			})
+		}
+	}
 	add(model.Var{Name: "nope"}, nil)
 	add(bin("+", lit(model.Int(1)), model.Var{Name: "nope"}), nil)
 	add(model.Ternary{C: lit(model.Bool(true)), A: lit(model.Int(1)), B: model.Var{Name: "nope"}}, nil)
